@@ -228,6 +228,14 @@ where
     yvals[0] + x * (yvals[1] - yvals[0])
 }
 
+/// Get the fractional position of `idx` between the two nearest intermediate points.
+/// This uses the same fractional part as the lookup of the points themselves,
+/// otherwise the two can round to different sides of a point.
+fn frac_between_sincs(idx: f64, oversampling_factor: usize) -> f64 {
+    let pos = (idx - idx.floor()) * oversampling_factor as f64;
+    pos - pos.floor()
+}
+
 /// Advance the time step of a ramp by one increment, without passing the end value.
 fn ramp_step(t_ratio: f64, increment: f64, t_ratio_end: f64) -> f64 {
     let next = t_ratio + increment;
@@ -428,8 +436,7 @@ where
                     t_ratio = ramp_step(t_ratio, t_ratio_increment, t_ratio_end);
                     idx += t_ratio;
                     get_nearest_times_4(idx, oversampling_factor as isize, &mut nearest);
-                    let frac = idx * oversampling_factor as f64
-                        - (idx * oversampling_factor as f64).floor();
+                    let frac = frac_between_sincs(idx, oversampling_factor);
                     let frac_offset = T::coerce(frac);
                     for (chan, active) in self.channel_mask.iter().enumerate() {
                         if *active {
@@ -454,8 +461,7 @@ where
                     t_ratio = ramp_step(t_ratio, t_ratio_increment, t_ratio_end);
                     idx += t_ratio;
                     get_nearest_times_3(idx, oversampling_factor as isize, &mut nearest);
-                    let frac = idx * oversampling_factor as f64
-                        - (idx * oversampling_factor as f64).floor();
+                    let frac = frac_between_sincs(idx, oversampling_factor);
                     let frac_offset = T::coerce(frac);
                     for (chan, active) in self.channel_mask.iter().enumerate() {
                         if *active {
@@ -480,8 +486,7 @@ where
                     t_ratio = ramp_step(t_ratio, t_ratio_increment, t_ratio_end);
                     idx += t_ratio;
                     get_nearest_times_2(idx, oversampling_factor as isize, &mut nearest);
-                    let frac = idx * oversampling_factor as f64
-                        - (idx * oversampling_factor as f64).floor();
+                    let frac = frac_between_sincs(idx, oversampling_factor);
                     let frac_offset = T::coerce(frac);
                     for (chan, active) in self.channel_mask.iter().enumerate() {
                         if *active {
@@ -786,8 +791,7 @@ where
                     t_ratio += t_ratio_increment;
                     idx += t_ratio;
                     get_nearest_times_4(idx, oversampling_factor as isize, &mut nearest);
-                    let frac = idx * oversampling_factor as f64
-                        - (idx * oversampling_factor as f64).floor();
+                    let frac = frac_between_sincs(idx, oversampling_factor);
                     let frac_offset = T::coerce(frac);
                     for (chan, active) in self.channel_mask.iter().enumerate() {
                         if *active {
@@ -811,8 +815,7 @@ where
                     t_ratio += t_ratio_increment;
                     idx += t_ratio;
                     get_nearest_times_3(idx, oversampling_factor as isize, &mut nearest);
-                    let frac = idx * oversampling_factor as f64
-                        - (idx * oversampling_factor as f64).floor();
+                    let frac = frac_between_sincs(idx, oversampling_factor);
                     let frac_offset = T::coerce(frac);
                     for (chan, active) in self.channel_mask.iter().enumerate() {
                         if *active {
@@ -836,8 +839,7 @@ where
                     t_ratio += t_ratio_increment;
                     idx += t_ratio;
                     get_nearest_times_2(idx, oversampling_factor as isize, &mut nearest);
-                    let frac = idx * oversampling_factor as f64
-                        - (idx * oversampling_factor as f64).floor();
+                    let frac = frac_between_sincs(idx, oversampling_factor);
                     let frac_offset = T::coerce(frac);
                     for (chan, active) in self.channel_mask.iter().enumerate() {
                         if *active {
